@@ -3,6 +3,7 @@ import JumanjiModel.Bridge.Json
 import JumanjiModel.Env.Cleaner.Model
 import JumanjiModel.Env.Cleaner.Bounds
 import JumanjiModel.Env.Maze.MazeGen
+import JumanjiModel.Env.Cleaner.Gen
 open Lean Jb
 
 namespace Jb.Cleaner
@@ -82,7 +83,11 @@ def opInstance : Op := fun j => do
               ("even_cells_free", jBool (MazeGen.evenCellsFree m nr nc)),
               ("recursive_division", jBool (MazeGen.isRecursiveDivisionMaze m nr nc)),
               ("step_count_zero", jBool (decide (s.stepCount = 0))),
-              ("consistent", jBool (decide (Consistent cfg s)))])
+              ("consistent", jBool (decide (Consistent cfg s))),
+              -- the certificate of `cleaner_reset_cert` / `cleaner_all_cleanable` (Env/Cleaner/Gen.lean)
+              ("reset_cert", jBool (resetCert cfg s)),
+              -- the reset state IS the transliterated generator applied to its own wall map
+              ("generate_matches", jBool (generateMatches cfg s))])
 
 /-- {cfg} → {leaf path: {"lo": rat|null, "hi": rat|null}}: the proved value bounds `obsBounds cfg` (C01) -/
 def opBounds : Op := fun j => do
